@@ -91,7 +91,8 @@ EXACT_INTS = [0, 1, -7, 2 ** 31, 2 ** 53, -(2 ** 53), 2 ** 60, -(2 ** 63), 10 **
 
 @st.composite
 def number_position_cases(draw):
-    where = draw(st.sampled_from(["root", "items", "property", "additional", "tuple", "anyOf"]))
+    where = draw(st.sampled_from(["root", "items", "property", "additional", "tuple", "anyOf", "pattern-over-declared",
+                                  "pattern-over-declared"]))
     num = {"type": "number"}
     if draw(st.integers(0, 3)) == 0:
         num = {"type": "number", "minimum": -(2 ** 80)}
@@ -109,8 +110,15 @@ def number_position_cases(draw):
     elif where == "tuple":
         schema = {"type": "array", "items": [{"type": "string"}, num], "additionalItems": num}
         values, paths = [["s"] + ints, ["s", ints[0]]], [["1+"]]
-    else:
+    elif where == "anyOf":
         schema, values, paths = {"anyOf": [{"type": "string"}, num]}, ints + ["s"], [[]]
+    else:
+        # the NUMBER schema reaches the member through patternProperties; the declared property says nothing about
+        # its type (untyped, a `not`, a composition of untyped schemas) - "which branch builds the result"
+        declared = draw(st.sampled_from([{}, {"not": {"type": "string"}}, {"anyOf": [{}, {"minimum": -(2 ** 90)}]},
+                                         {"allOf": [{"not": {"type": "null"}}]}, {"minimum": -(2 ** 90)}]))
+        schema = {"type": "object", "title": "N", "properties": {"ab": declared}, "patternProperties": {"^a": num}}
+        values, paths = [{"ab": ints[0]}, {"ab": ints[-1], "ac": ints[0]}], [["ab"], ["ac"]]
     return {"mode": "number-positions", "schema": schema, "values": values, "paths": paths,
             "pipeline": draw(st.sampled_from(observe.PIPELINES))}
 
